@@ -532,8 +532,8 @@ impl Property for C04 {
                 });
                 continue;
             }
-            if rng.pct(3) {
-                history.push(H::HostLoad { k: rng.below(120) });
+            if rng.pct(8) {
+                history.push(H::HostLoad { k: if rng.pct(70) { rng.below(30) } else { rng.below(200) } });
                 continue;
             }
             match rng.below(10) {
